@@ -45,7 +45,9 @@ Advertise(e) ==
        /\ Chk((dmin < 0 /\ e.d > 0 /\ e.d <= 5 /\ cur.wf /\ cur.n - cur.k <= 16) => NoLightCodeword(cur.H, cur.n, e.d),
               "true_distance_at_least_advertised")
        \* codes too large to enumerate: the true distance from the dual's weight distribution through the MacWilliams identity
-       /\ Chk(~mw \/ DualWellFormed(e.dualB, cur.n, cur.k), "harness_dual_weight_distribution_malformed")
+       \* the sensor's output is judged on its own terms (one zero word, a power of two words in all, as many as the dual of the TRUE dimension
+       \* has): a generator matrix of deficient rank is a verdict of the dimension clause above, not a malformed measurement
+       /\ Chk(~mw \/ (DualWellFormed(e.dualB, cur.n, cur.n - e.dual_dim) /\ e.dual_dim = cur.n - Cardinality(DOMAIN cur.B)), "harness_dual_weight_distribution_malformed")
        /\ Chk((mw /\ e.d > 0) => NoWeightBelow(e.dualB, cur.n, e.d), "true_distance_at_least_advertised")
        /\ Chk((mw /\ e.d > 0 /\ e.dexact) => HasWeight(e.dualB, cur.n, e.d), "true_distance_equals_documented_exact_value")
        /\ Chk((mw /\ e.t >= 0) => NoWeightBelow(e.dualB, cur.n, 2 * e.t + 1), "advertised_correction_capability_within_half_the_true_distance")
